@@ -240,6 +240,34 @@ def chk5_factories(ctx):
                   'checked_aggregate builds %s' % sorted(built), where(b.blocks[0].term))
 
 
+def sticky_flag_violations(body, cfg, du, switch_local):
+    """The local tested by the final `if overflow` must accumulate: every definition inside a loop
+    is `BitOr(copy flag, x)` (|=); a plain overwrite in the loop loses earlier overflows."""
+    # resolve through `_t = copy _flag` temporaries to the multi-def variable
+    seen = set()
+    cur = switch_local
+    while cur is not None and cur not in seen:
+        seen.add(cur)
+        d = du.single_def(cur)
+        if d and d[1] == 'stmt' and re.match(r'^(copy|move) _\d+$', d[2].rhs.strip()):
+            cur = base_local(d[2].rhs)
+        else:
+            break
+    flag = cur
+    loops = [cfg.natural_loop(h) for h in cfg.loop_headers()]
+    bad = []
+    for (bid, kind, obj) in du.defs.get(flag, []):
+        in_loop = any(bid in lp for lp in loops)
+        if not in_loop:
+            continue
+        rhs = obj.rhs.strip() if kind == 'stmt' else ''
+        m = re.match(r'^BitOr\((.*)\)$', rhs)
+        if m and re.search(r'\bcopy _%d\b|\bmove _%d\b' % (flag, flag), m.group(1)):
+            continue
+        bad.append((bid, obj))
+    return flag, bad
+
+
 def chk6_operators_consume_flag(ctx):
     ctx.rule('CHK-6', 'checked operators call the checked scalar op and return Ok only when no '
                       'overflow flag was raised', floor=8)
@@ -320,6 +348,11 @@ def chk6_operators_consume_flag(ctx):
         ctx.check('CHK-6', '%s|ok-depends-on-overflow-flag' % short, good,
                   'Ok(()) is returned only on the false edge of the accumulated overflow flag, '
                   'the true edge returns Err', where(b.blocks[okb[0]].term) if okb else where(b.blocks[0].term))
+        for (sb, st) in sw[:1]:
+            flag, bad = sticky_flag_violations(b, cfg, du, base_local(st.discr))
+            ctx.check('CHK-6', '%s|flag-accumulates' % short, not bad,
+                      'the overflow flag is accumulated with |= inside the loop (overwrites: %d)' % len(bad),
+                      where(bad[0][1]) if bad else where(st))
 
 
 # ------------------------------------------------------------------------------------ CHK-7
@@ -615,6 +648,7 @@ def chk8_sum(ctx):
     ctx.require(len(cands) == 1, 'CHK-8: <i64 as Combinable<i64>>::combine not found')
     b = cands[0]
     adds = calls_matching(b, lambda n: n in ('core::num::<impl i64>::checked_add', 'i64::checked_add'))
+    oadds = calls_matching(b, lambda n: n in ('core::num::<impl i64>::overflowing_add', 'i64::overflowing_add'))
     raw = []
     for bid, blk in b.blocks.items():
         if blk.cleanup:
@@ -630,8 +664,49 @@ def chk8_sum(ctx):
             if norm_callee(t2.func).endswith('Option::ok_or') and base_local(t2.args[0]) in fw \
                     and 'QueryError::Overflow' in ' '.join(s.rhs or '' for s in b2.stmts if s.kind == 'assign') + ' '.join(t2.args):
                 ok_or = True
-    # the SumI64 arm is the one reaching checked_add; the raw Add belongs to Count (tabled in C04 n/a)
-    ctx.check('CHK-8', 'Combinable<i64>::combine|sum-merge-checked', bool(adds) and ok_or,
-              'partial integer sums are merged with checked_add mapped to QueryError::Overflow '
-              '(%d checked_add, %d raw add [Count])' % (len(adds), len(raw)),
-              where(adds[0][1]) if adds else where(b.blocks[0].term))
+    flag_returned = any(0 in du.forward(base_local(t.dest)) for (blk, t) in oadds)
+    mode = 'checked_add -> ok_or(Overflow)' if (adds and ok_or) else \
+        ('overflowing_add flag returned' if flag_returned else 'none')
+    # at most one raw add (Count) may remain next to the checked sum
+    ctx.check('CHK-8', 'Combinable<i64>::combine|sum-merge-checked', mode != 'none' and len(raw) <= 1,
+              'partial integer sums are merged exactly: %s (%d checked_add, %d overflowing_add, '
+              '%d raw add [Count])' % (mode, len(adds), len(oadds), len(raw)),
+              where((adds or oadds)[0][1]) if (adds or oadds) else where(b.blocks[0].term))
+    if mode == 'overflowing_add flag returned':
+        # the caller must accumulate the flag and fail on it
+        M = [x for x in P.fn_bodies() if x.crate == 'locustdb' and x.name.endswith('merge_aggregate::merge_aggregate')]
+        ctx.require(len(M) == 1, 'CHK-8: merge_aggregate not found')
+        m = M[0]
+        cfg = CFG(m)
+        dm = DefUse(m)
+        errs = []
+        for bid, blk in m.blocks.items():
+            if blk.cleanup:
+                continue
+            for s_ in blk.stmts:
+                if s_.kind == 'assign' and s_.lhs == '_0' and re.search(r'Result::<.*>::Err\(', s_.rhs or ''):
+                    errs.append(bid)
+        sws = []
+        for bid, blk in m.blocks.items():
+            t_ = blk.term
+            if blk.cleanup or t_ is None or t_.kind != 'switch':
+                continue
+            if m.local_type(base_local(t_.discr)) != 'bool':
+                continue
+            org = dm.origins(base_local(t_.discr))
+            from_combine = any(norm_callee(c.func).endswith('Combinable>::combine') for (_b, c) in org['calls'])
+            if from_combine and any(cfg.dominates(tg, e) for (_v, tg) in t_.targets for e in errs
+                                    if cfg.pred.get(tg) == [bid]):
+                sws.append((bid, t_))
+        good = False
+        detail = 'no branch on an overflow flag leads to Err(Overflow)'
+        good = bool(sws)
+        for (sb, st) in sws:
+            flag, bad = sticky_flag_violations(m, cfg, dm, base_local(st.discr))
+            if bad:
+                good = False
+                detail = 'the overflow flag is overwritten inside the merge loop (%s): an overflow ' \
+                         'in an earlier group is forgotten' % bad[0][1].code[:60]
+        ctx.check('CHK-8', 'merge_aggregate|flag-accumulates', good, detail if not good else
+                  'merge loop accumulates the overflow flag with |= and fails on it',
+                  where(sws[0][1]) if sws else where(m.blocks[0].term))
